@@ -5,8 +5,8 @@
    (t4 a p q r s = a(27p+9q+3r+s), mat6 a i j = a(6i+j), mat3 a i j = a(3i+j)). *)
 From Coq Require Import Reals ZArith List.
 From PV Require Import Num NumR Model_voigt Model_decomp Proofs_tensors_alg Proofs_tensors_rot
-  Proofs_tensors_maps Proofs_tensors_proj Proofs_tensors_polar.
-From PV.gen Require Import Gen_tensors.
+  Proofs_tensors_maps Proofs_tensors_proj Proofs_tensors_polar Inst_tensors Proofs_tensors_polar2.
+From PV.gen Require Import Gen_tensors Gen_polar.
 Import ListNotations.
 Open Scope R_scope.
 
@@ -192,6 +192,86 @@ Proof.
              (conj (polar_right_stretch_symmetric S Vh) (polar_right_stretch_psd S Vh HS)) Eu)
     end).
 Qed.
+
+(* ---- polar decomposition: the GENERATED code (gen/Gen_polar.v, regenerated from the real
+   pydrex.tensors.polar_decompose over the SVD oracle on every run) ---- *)
+(* tie: both generated variants ARE the hand-written models the statements above are about
+   (Leibniz equalities, all matrices, all oracle outputs, no hypothesis) *)
+Theorem C11_polar_left_is_generated : forall M U S Vh : arr NumR,
+  k_polar_decompose_left M U S Vh = polar_left U S Vh.
+Proof. exact polar_left_inst. Qed.
+Theorem C11_polar_right_is_generated : forall M U S Vh : arr NumR,
+  k_polar_decompose_right M U S Vh = polar_right M S Vh.
+Proof. exact polar_right_inst. Qed.
+
+(* the whole polar clause on what polar_decompose(M) returns, over the SVD oracle hypotheses
+   (U, Vh orthogonal, S >= 0, M = U diag(S) Vh): R = U Vh orthogonal on both sides,
+   P = U diag(S) U^T symmetric POSITIVE SEMI-DEFINITE, M = P R, and P P = M M^T *)
+Theorem C11_polar_left_generated : forall M U S Vh : arr NumR,
+  orth (mat3 U) -> orth (tr3 (mat3 U)) -> orth (mat3 Vh) -> orth (tr3 (mat3 Vh)) ->
+  (forall i, (i < 3)%nat -> 0 <= S i) ->
+  eq2b (mat3 M) (mm (mat3 U) (mm (diagm S) (mat3 Vh))) ->
+  let '(R, P) := k_polar_decompose_left M U S Vh in
+  (orth (mat3 R) /\ orth (tr3 (mat3 R))) /\
+  (sym3 (mat3 P) /\ forall x, 0 <= quad (mat3 P) x) /\
+  eq2b (mm (mat3 P) (mat3 R)) (mat3 M) /\
+  eq2b (mm (mat3 P) (mat3 P)) (mm (mat3 M) (tr3 (mat3 M))).
+Proof. exact polar_left_generated. Qed.
+
+(* the stretch is a square root of M M^T ... *)
+Theorem C11_polar_left_stretch_squared : forall M U S Vh : arr NumR,
+  orth (mat3 U) -> orth (tr3 (mat3 Vh)) ->
+  eq2b (mat3 M) (mm (mat3 U) (mm (diagm S) (mat3 Vh))) ->
+  let P := snd (polar_left U S Vh) in eq2b (mm (mat3 P) (mat3 P)) (mm (mat3 M) (tr3 (mat3 M))).
+Proof. exact polar_left_stretch_squared. Qed.
+(* ... hence a matrix with a negative direction x^T M x < 0 -- symmetric or not -- is never
+   returned as its own stretch (what a "symmetric input: return (I, M)" shortcut would do) *)
+Theorem C11_polar_stretch_not_input_when_indefinite : forall M U S Vh : arr NumR,
+  (forall i, (i < 3)%nat -> 0 <= S i) ->
+  (exists x, quad (mat3 M) x < 0) -> ~ eq2b (mat3 (snd (polar_left U S Vh))) (mat3 M).
+Proof. exact polar_stretch_not_input_when_indefinite. Qed.
+
+(* right variant on the generated code: a value exactly when det M <> 0 (then R U_m = M,
+   R^T R = I, U_m symmetric positive semi-definite); for a singular M it raises LinAlgError *)
+Theorem C11_polar_right_generated : forall M U S Vh : arr NumR,
+  orth (mat3 U) -> orth (mat3 Vh) -> orth (tr3 (mat3 Vh)) -> (forall i, (i < 3)%nat -> 0 <= S i) ->
+  eq2b (mat3 M) (mm (mat3 U) (mm (diagm S) (mat3 Vh))) ->
+  match k_polar_decompose_right M U S Vh with
+  | Ok (R, Ur) =>
+      det3 M <> 0 /\ eq2b (mm (mat3 R) (mat3 Ur)) (mat3 M) /\ orth (mat3 R) /\
+      sym3 (mat3 Ur) /\ forall x, 0 <= quad (mat3 Ur) x
+  | Err e => e = ValueError /\ det3 M = 0
+  end.
+Proof. exact polar_right_generated. Qed.
+Theorem C11_polar_right_ok_iff : forall M U S Vh : arr NumR,
+  orth (mat3 U) -> orth (mat3 Vh) ->
+  eq2b (mat3 M) (mm (mat3 U) (mm (diagm S) (mat3 Vh))) ->
+  (exists Rr, polar_right M S Vh = Ok (Rr, matmul3 (transpose3 Vh) (matmul3 (diag3 S) Vh))) <-> det3 M <> 0.
+Proof. exact polar_right_ok_iff. Qed.
+(* finding (open): the property wants a decomposition of EVERY real 3x3 matrix; the right
+   variant refuses the singular ones *)
+Theorem C11_polar_right_singular_refuted : forall M U S Vh : arr NumR,
+  orth (mat3 U) -> orth (mat3 Vh) ->
+  eq2b (mat3 M) (mm (mat3 U) (mm (diagm S) (mat3 Vh))) ->
+  det3 M = 0 -> polar_right M S Vh = Err ValueError.
+Proof. exact polar_right_singular_raises. Qed.
+(* the repair (fixes/C11-polar-right-singular.patch): R = U Vh with the same U_m works for every M *)
+Theorem C11_polar_right_repaired : forall M U S Vh : arr NumR,
+  orth (mat3 U) -> orth (tr3 (mat3 U)) -> orth (mat3 Vh) -> orth (tr3 (mat3 Vh)) ->
+  eq2b (mat3 M) (mm (mat3 U) (mm (diagm S) (mat3 Vh))) ->
+  let R := matmul3 U Vh in let Um := matmul3 (transpose3 Vh) (matmul3 (diag3 S) Vh) in
+  (orth (mat3 R) /\ orth (tr3 (mat3 R))) /\ eq2b (mm (mat3 R) (mat3 Um)) (mat3 M).
+Proof. exact polar_right_repaired. Qed.
+
+(* non-vacuity of the singular / indefinite hypotheses: the exactly symmetric, singular,
+   indefinite M = diag(1, -1, 0) with the SVD U = diag(1, -1, 1), S = (1, 1, 0), Vh = I *)
+Example C11_polar_nonvacuous :
+  orth (mat3 Ux) /\ orth (tr3 (mat3 Ux)) /\ orth (mat3 (@eye3 NumR)) /\ orth (tr3 (mat3 (@eye3 NumR))) /\
+  (forall i, (i < 3)%nat -> 0 <= Sx i) /\
+  eq2b (mat3 Mx) (mm (mat3 Ux) (mm (diagm Sx) (mat3 (@eye3 NumR)))) /\
+  @det3 NumR Mx = 0 /\ (exists x, quad (mat3 Mx) x < 0) /\
+  (forall i j, (i < 3)%nat -> (j < 3)%nat -> mat3 Mx i j = mat3 Mx j i).
+Proof. exact polar2_nonvacuous. Qed.
 
 (* ---- invariants ---- *)
 Theorem C11_charpoly_coeffs : forall (M : arr NumR) x,
